@@ -111,8 +111,7 @@ def run(ctx):
             return length > 0
         if t == "len(%s) >= 2" % var:
             return length >= 2
-        if t.startswith("len(%s)" % var):
-            raise AnalysisError("readChunk: unrecognised length guard `%s`" % t)
+        # any other test (including length tests against run-time quantities) is explored both ways
         return None
     for length, label in ((1, "len(data)=1"), (2, "len(data)>=2")):
         def edge_ok(src, dst, lab, length=length):
